@@ -51,3 +51,8 @@ func Done() int {
 	}
 	return d.(int)
 }
+
+// Call makes the probe itself call a method (so that it is the calling contract, e.g. the owner it registers a name for).
+func Call(target interop.Hash160, method string, args []any) any {
+	return contract.Call(target, method, contract.All, args...)
+}
